@@ -285,7 +285,13 @@ def check_usage(ctx):
             R.dom(ctx, inst, body, [w.id for w in ws], wm, "metadata.%s refreshed before it is written" % field, a_desc="metadata." + field)
 
 
+def check_scrub(ctx):
+    from rules.common import check_scrub_release_clears_group
+    check_scrub_release_clears_group(ctx, "C05.failed-write/scrub-release")
+
+
 def check(ctx):
+    check_scrub(ctx)
     check_who(ctx)
     check_after_marker(ctx)
     check_failed_write(ctx)
